@@ -569,6 +569,11 @@ def config_glue(ctx, rng, variant=None):
     variant = variant or os.environ.get('VERIF_CFG_VARIANT', 'c')
     n, pop_sizes, migration, size_shape, mig_shape = _cfg_input(rng)
     n_arg = n.copy() if isinstance(n, (dict, list, np.ndarray)) else n
+    # the fourth documented way of giving the sample: a LineageConfig object (built from the same container; chosen from the
+    # input itself, no extra random draw) - populations it omits are completed exactly as for a dict
+    if random.Random(repr(n) + size_shape + mig_shape).random() < 0.35:
+        n_arg = pg.LineageConfig(n_arg)
+        ctx.count('config:n-as-LineageConfig-object')
     coal = pg.Coalescent(n=n_arg, demography=pg.Demography(pop_sizes=pop_sizes, migration_rates=migration))
     axis = list(coal.lineage_config.pop_names)
     init = [int(x) for x in coal.lineage_config.lineages]
